@@ -156,6 +156,7 @@ struct xplan { /* plan for the answer to one query */
 	int16_t pos; /* PDU position the defect applies to: 0=Cache Response, 1..n data, n+1=EOD; -1 = random */
 	uint32_t param;
 	uint8_t ver_byte; /* for D_WRONG_VERSION / AO_ERR_REPORT */
+	uint8_t churn_first; /* n > 0: first insert n benign announce/withdraw pairs, then apply `defect` (compound responses) */
 };
 
 enum fault_kind { F_NONE = 0, F_ERROR = -1, F_WOULDBLOCK = -2, F_INTR = -3, F_CLOSED = -4 };
@@ -316,6 +317,13 @@ struct sim {
 	time_t t_last_disturbance;
 	/* exchange under judgement */
 	struct exchange ex;
+	/* C03: next-query check deferred until the query after a reconnect */
+	struct {
+		bool armed, purged, reset_legit;
+		uint8_t qtype, defect, override;
+		uint16_t sess;
+		uint32_t serial;
+	} c03_next;
 	/* C05 monitor */
 	int expect_kind; /* 0 = reset query, 1 = serial query */
 	uint16_t expect_sess;
@@ -357,6 +365,11 @@ struct sim {
 	bool errpdu_delivered_on_conn;
 	/* C09/C10 change-log replay */
 	struct cblog *cb;
+	/* C06: forced reloads from preset data sets */
+	const bset *presets_p, *presets_k;
+	int npresets, preset_next;
+	bool restart_every_poll;
+	void (*on_reset_answer)(void);
 };
 
 /* update-callback replay sets (whole table, all sources) */
@@ -403,6 +416,7 @@ void sim_prepare_stop(struct sim *s);
 void sim_cache_push_dataset(struct sim *s, const bset *p, const bset *k);
 void sim_cache_mutate(struct sim *s, int flips);
 void sim_cache_restart(struct sim *s, bool new_data);
+void sim_cache_restart_with(struct sim *s, const bset *p, const bset *k);
 void sim_after_stop(struct sim *s);
 void sim_on_restart(struct sim *s);
 void sim_final_convergence_check(struct sim *s);
